@@ -172,7 +172,8 @@ class TermRange(RangeMixin, terms.MultiTerm):
         else:
             return TermRange(self.fieldname, self.start, self.end,
                              self.startexcl, self.endexcl,
-                             boost=self.boost)
+                             boost=self.boost,
+                             constantscore=self.constantscore)
 
     #def replace(self, fieldname, oldtext, newtext):
     #    q = self.copy()
